@@ -227,6 +227,7 @@ class Report:
                 samples=self.samples[:12] or ['(none)'],
                 solver_queries=self.queries, solver_time_s=round(self.solver_s, 2),
                 functions_encoded=sorted(self.functions, key=lambda k: -self.functions[k])[:60],
+                functions_encoded_total=len(self.functions),
                 native_models_used=sorted(self.models)[:80],
                 bounds=self.bounds,
                 engines=self.engines,
@@ -240,6 +241,12 @@ class Report:
             assumptions=self.assumptions,
             exit_status=status,
         )
+        try:        # full list of executed function bodies (the evidence keeps the 60 most used): input of tools/coverage_gap.py
+            os.makedirs(TARGET + '/coverage', exist_ok=True)
+            with open(f'{TARGET}/coverage/{self.prop}.{self.tier}.funcs.txt', 'w') as f:
+                for k in sorted(self.functions): f.write(f'{self.functions[k]}\t{k}\n')
+        except Exception:
+            pass
         os.makedirs(OUT + '/evidence', exist_ok=True)
         with open(f'{OUT}/evidence/{self.prop}.json', 'w') as f:
             json.dump(ev, f, indent=1, default=str)
